@@ -7,7 +7,7 @@ import pepper
 
 ID = "C04"
 LEVEL = "proof"
-THEOREMS = ["C04_closure_exact_partial", "C04_eq_rep_least", "C04_wc_rep_least", "C04_wc_rep_none", "C04_same_rep_iff_connected", "C04_wc_rep_is_eq_rep_of_partner", "C04_strand_layout", "C04_template_clause", "C04_seeded_total", "C04_seeded_graph_denotes", "C04_connected_nodes_declared", "C04_contraction", "C04_denotation_nonvacuous", "C04_loaded_graph_denotes", "C04_loaded_hypotheses", "C04_seed_is_declarative", "C04_blank_iff_off_strand", "C04_two_blanks_after_strand", "C04_struct_loaded_graph_denotes", "C04_struct_loaded_hypotheses", "C04_struct_seed_is_declarative"]
+THEOREMS = ["C04_closure_exact_partial", "C04_eq_rep_least", "C04_wc_rep_least", "C04_wc_rep_none", "C04_same_rep_iff_connected", "C04_wc_rep_is_eq_rep_of_partner", "C04_strand_layout", "C04_template_clause", "C04_seeded_total", "C04_seeded_graph_denotes", "C04_connected_nodes_declared", "C04_contraction", "C04_denotation_nonvacuous", "C04_loaded_graph_denotes", "C04_loaded_hypotheses", "C04_seed_is_declarative", "C04_blank_iff_off_strand", "C04_two_blanks_after_strand", "C04_struct_loaded_graph_denotes", "C04_struct_loaded_hypotheses", "C04_struct_seed_is_declarative", "C04_struct_blank_iff_off_struct", "C04_struct_blanks", "C04_struct_separators"]
 TRUSTED = ["harness/pepper.py: generator/printer of PIL documents (compiler-emitted and hand-written style), and spec_arrays: the parity union-find oracle over the document's denotation used by the failing-input search",
            "PIL_parser's regular expressions are exercised with free spacing / comments / optional [..], not modelled"]
 ASSUMPTIONS = ["structure-oriented layout only for documents in which every strand occurs in some structure"]
